@@ -7,6 +7,7 @@
 #
 # @author Davide Brunato <brunato@sissa.it>
 #
+import datetime
 import decimal
 import math
 import re
@@ -856,9 +857,14 @@ class XPathToken(Token[ta.XPathTokenType]):
                     _item += timezone.offset
                 elif not isinstance(item, Date):
                     _item += timezone.offset - _tzinfo.offset
-                elif timezone.offset < _tzinfo.offset:
-                    _item -= timezone.offset - _tzinfo.offset
-                    _item -= DayTimeDuration.fromstring('P1D')
+                else:
+                    # The date is the dateTime at 00:00:00 in its timezone: the adjustment
+                    # changes the day when it crosses midnight, backward or forward.
+                    days = (timezone.offset - _tzinfo.offset) // datetime.timedelta(days=1)
+                    if days < 0:
+                        _item -= DayTimeDuration.fromstring(f'P{-days}D')
+                    elif days > 0:
+                        _item += DayTimeDuration.fromstring(f'P{days}D')
         except OverflowError as err:
             if isinstance(context, XPathSchemaContext):
                 return _item
